@@ -3,6 +3,8 @@ from __future__ import annotations
 
 import itertools
 
+import os
+
 import numpy as np
 
 from vlib import refmodels
@@ -27,7 +29,7 @@ CLASSES = ("constant", "two_valued", "bits2", "bits4", "bits8", "normal", "wide"
 
 def REQUIRED(tier):
     return ["histories:composition", "histories:merge", "histories:merge_of_merges", "class:constant", "class:wide", "class:outlier", "class:tiny",
-            "mode:basic", "mode:full", "constant_channel_checks", "single_sample_chunks", "canary_audits", "cross_partition_checks", "class:const_f64", "class:normal_f64", "histories:large_merge", "regime:merged_count_over_2^21", "histories:observed_mid_stream", "merge:augmented_assignment", "regime:chunks_of_thousands_of_samples", "histories:reused_chunk_buffer", "histories:after_refused_first_push"]
+            "mode:basic", "mode:full", "constant_channel_checks", "single_sample_chunks", "canary_audits", "cross_partition_checks", "class:const_f64", "class:normal_f64", "histories:large_merge", "regime:merged_count_over_2^21", "histories:observed_mid_stream", "merge:augmented_assignment", "regime:chunks_of_thousands_of_samples", "histories:reused_chunk_buffer", "histories:after_refused_first_push", "histories:reader_windows"]
 
 
 def cases(tier, seed):
@@ -42,6 +44,9 @@ def cases(tier, seed):
         for split, shift in ((0.5, 5.0), (0.1, -3.0)) if tier == "quick" else ((0.5, 5.0), (0.1, -3.0), (0.9, 40.0), (0.5, 0.0)):
             k += 1
             yield {"kind": "large_merge", "n": n, "split": split, "shift": shift, "dseed": int(seed) * 1009 + k}
+    for i in range(10 if tier == "quick" else 200):
+        k += 1
+        yield {"kind": "reader_windows", "dseed": int(seed) * 1009 + k}
     lrng = np.random.default_rng([seed, 1011])
     for _ in range(24 if tier == "quick" else 400):     # long streams of few channels: chunks of thousands of samples
         k += 1
@@ -220,11 +225,47 @@ def _large_merge(case, ctx):
         ctx.nontrivial_case({"c": "large", "n": n, "k": k, "s": case["dseed"]})
 
 
+def _reader_windows(case, ctx):
+    """The accumulators a reader hands out (Filterbank.chan_stats) for successive windows of one file: each stays the description of its own
+    window, their sum describes the union, and the mode of one call does not leak into the next."""
+    import tempfile
+
+    from sigpyproc.readers import FilReader
+    from vlib import sigfile
+
+    rng = np.random.default_rng([case["dseed"], 91])
+    n, nch = int(rng.integers(300, 900)), int(rng.choice([4, 8]))
+    x = rng.gamma(2.0, 20.0, size=(n, nch)).clip(0, 255).astype(np.uint8)
+    d = tempfile.mkdtemp(prefix="c10w-", dir=ctx.tmp)
+    path = os.path.join(d, "w.fil")
+    sigfile.write_fil(path, x, 8, fch1=1500.0, foff=-1.0, tsamp=1e-3)
+    fil = FilReader(path)
+    k = int(rng.integers(n // 4, 3 * n // 4))
+    gulp = int(rng.choice([64, 100, 10 * n]))
+    c2 = dict(case, cls="reader_windows")
+    try:
+        ctx.evaluated(); ctx.count("histories:reader_windows")
+        fil.compute_stats(gulp=gulp, start=0, nsamps=k, quiet=True, description="v")
+        a = fil.chan_stats
+        fil.compute_stats_basic(gulp=gulp, start=k, nsamps=n - k, quiet=True, description="v")     # another window, basic mode
+        fil.compute_stats(gulp=gulp, start=k, nsamps=n - k, quiet=True, description="v")           # the same window, full mode
+        b = fil.chan_stats
+        ok = _check(ctx, c2, "reader_window_1", _stats(a, "full"), refmodels.moments_two_pass(x[:k]), x[:k], "full", ["window", 0, k]) and \
+            _check(ctx, c2, "reader_window_2", _stats(b, "full"), refmodels.moments_two_pass(x[k:]), x[k:], "full", ["window", k, n - k]) and \
+            _check(ctx, c2, "reader_windows_merged", _stats(a + b, "full"), refmodels.moments_two_pass(x), x, "full", ["merge", k, n - k])
+        if ok:
+            ctx.nontrivial_case({"c": "reader_windows", "n": n, "k": k, "s": case["dseed"]})
+    except Exception as exc:  # noqa: BLE001
+        ctx.violation(f"raised:reader_windows:{type(exc).__name__}@{exc_site(exc)}", fmt_exc(exc), c2)
+
+
 def run_case(case, ctx):
     from sigpyproc.core.stats import ChannelStats
 
     if case["kind"] == "large_merge":
         return _large_merge(case, ctx)
+    if case["kind"] == "reader_windows":
+        return _reader_windows(case, ctx)
 
     cls, mode, n, nch = case["cls"], case["mode"], case["n"], case["nchans"]
     if case.get("threads"):
